@@ -234,6 +234,13 @@ func runFaultJob(c *Ctl, job *Job, idx int, res *RunResult) {
 		prof.Checks["C12"] = true
 		res.WorldIdx = world
 		res.Sample = map[string]interface{}{"world": w.Summary(), "cancel_at_step": variant, "via": prof.CancelVia, "cancels": w.NFaults}
+	case "c14":
+		w = GenContextWorld(c.Ch, thorough)
+		prof.UseRunEnter = true
+		prof.UseCtxUp = true
+		prof.WAdvance = 1
+		prof.Checks["C14"] = true
+		res.Sample = map[string]interface{}{"world": w.Summary()}
 	default:
 		res.HarnessErr = "unknown fault profile " + job.Profile
 		return
@@ -249,6 +256,9 @@ func runFaultJob(c *Ctl, job *Job, idx int, res *RunResult) {
 	if prof.Checks["C12"] {
 		e.checkC12(x)
 	}
+	if prof.Checks["C14"] {
+		e.checkC14(x)
+	}
 	res.NonTrivial = true
 	e.c.Counters[fmt.Sprintf("max_parallel_execs_%d", e.maxExecPar)]++
 }
@@ -260,4 +270,79 @@ func indexByte(s string, b byte) int {
 		}
 	}
 	return len(s)
+}
+
+// ---- C14: execution contexts ----
+
+func GenContextWorld(ch *Choices, thorough bool) *IntegWorld {
+	w := &IntegWorld{Plans: map[string]*ExecPlan{}, Format: "raw"}
+	nctx := ch.Range(1, 3, "n-ctx")
+	for i := 0; i < nctx; i++ {
+		cs := &CtxSpec{Name: fmt.Sprintf("c%d", i), NUp: ch.Choose(3, "nup"), NDown: ch.Choose(3, "ndown"), NBefore: ch.Choose(3, "ncb"), NAfter: ch.Choose(3, "nca")}
+		w.Contexts = append(w.Contexts, cs)
+		for k := 0; k < cs.NUp; k++ {
+			pl := &ExecPlan{DurMS: ch.Choose(100, "up-dur")}
+			if ch.Bool(1, 10, "up-fails") {
+				pl.Exit = genExit(ch)
+			}
+			w.Plans[execID("ctx:"+cs.Name, "up", k, "")] = pl
+		}
+	}
+	max := 5
+	if thorough {
+		max = 8
+	}
+	nt := ch.Range(1, max, "n-tasks")
+	var names []string
+	for i := 0; i < nt; i++ {
+		nm := fmt.Sprintf("t%d", i)
+		names = append(names, nm)
+		t := &TaskSpec{Name: nm, NCmd: ch.Range(1, 2, "ncmd")}
+		if ch.Bool(1, 3, "has-before") {
+			t.NBefore = 1
+		}
+		if ch.Bool(1, 3, "has-after") {
+			t.NAfter = 1
+		}
+		t.Cond = ch.Bool(1, 4, "cond")
+		t.Allow = ch.Bool(1, 5, "allow")
+		if !ch.Bool(1, 6, "no-ctx") {
+			t.Context = w.Contexts[ch.Choose(nctx, "which-ctx")].Name
+		}
+		w.Tasks = append(w.Tasks, t)
+		for _, p := range taskPositions(t) {
+			pl := &ExecPlan{DurMS: ch.Choose(60, "dur")}
+			if p.block == "cmd" && ch.Bool(1, 6, "cmd-fails") {
+				pl.Exit = genExit(ch)
+			}
+			w.Plans[execID(nm, p.block, p.idx, p.v)] = pl
+		}
+		if t.Cond {
+			w.Plans[execID(nm, "cond", 0, "")] = &ExecPlan{Exit: []int{0, 0, 1}[ch.Choose(3, "cond-exit")]}
+		}
+	}
+	switch ch.Choose(3, "mode") {
+	case 0: // all started simultaneously
+		for _, nm := range names {
+			w.Drivers = append(w.Drivers, DriverSpec{Kind: "task", Target: nm})
+		}
+	case 1: // one after another
+		for _, nm := range names {
+			w.Drivers = append(w.Drivers, DriverSpec{Kind: "task", Target: nm})
+		}
+		w.Sequential = true
+	default: // stages: parallel roots and chains
+		g := &GraphSpec{Name: "root"}
+		for i, nm := range names {
+			s := &StageSpec{Name: nm, Allow: ch.Bool(1, 4, "stage-allow")}
+			if i > 0 && ch.Bool(1, 2, "chained") {
+				s.Deps = []string{names[ch.Choose(i, "dep")]}
+			}
+			g.Stages = append(g.Stages, s)
+		}
+		w.Graph = g
+		w.Drivers = []DriverSpec{{Kind: "pipeline", Target: "root"}}
+	}
+	w.FinishTwice = ch.Bool(1, 2, "finish-twice")
+	return w
 }
